@@ -204,9 +204,10 @@ End Offsets.
 Lemma fold_seq_nth {S} (f : S -> Z -> S) (P : list Z) : forall st,
   fold_left (fun st idx => f st (nth idx P 0%Z)) (seq 0 (length P)) st = fold_left f P st.
 Proof.
-  intros st. rewrite <- (map_nth_seq P 0%Z) at 3.
-  generalize (seq 0 (length P)). intros l. revert st. induction l as [|i l IH]; intros st; simpl; [reflexivity|].
-  apply IH.
+  assert (G : forall l st, fold_left (fun st idx => f st (nth idx P 0%Z)) l st
+                           = fold_left f (map (fun idx => nth idx P 0%Z) l) st).
+  { induction l as [|i l IH]; intros st; simpl; [reflexivity|]. apply IH. }
+  intros st. rewrite G, map_nth_seq. reflexivity.
 Qed.
 
 (* K4: the result of the walk is the occupancy vector of the chosen unit positions.
@@ -214,7 +215,7 @@ Qed.
 Theorem walk_counts_weak n a P :
   Forall (fun x => (0 <= x)%Z) a -> nondecr P -> Forall (fun p => (0 <= p < zsum a)%Z) P -> length P = n ->
   length (fst (walk n a P)) = length a /\
-  (forall i, i < length a -> nth i (fst (walk n a P)) 0%Z = cnt (off a i) (off a i + nth i a 0) P) /\
+  (forall i, i < length a -> nth i (fst (walk n a P)) 0%Z = cnt (off a i) (off a i + nth i a 0)%Z P) /\
   (a <> [] -> snd (walk n a P) = true).
 Proof.
   intros Hnn Hs Hb Hn. subst n. unfold walk. rewrite (fold_seq_nth (walk_body a) P).
@@ -224,14 +225,13 @@ Proof.
     simpl. split; [reflexivity|]. split; [intros i Hi; simpl in Hi; lia|]. intros H; contradiction.
   - rewrite <- Ea in *. assert (Hlen : 0 < length a) by (rewrite Ea; simpl; lia).
     assert (I0 : Inv a [] (walk_init a)).
-    { unfold Inv, walk_init; simpl. repeat split; try lia.
-      - apply Nat.ltb_lt. exact Hlen.
-      - rewrite (off_S a 0 Hlen). rewrite off_0. lia.
-      - constructor. }
+    { unfold Inv, walk_init; simpl. pose proof (off_S a 0 Hlen) as E1. pose proof (off_0 a) as E0.
+      repeat split; try lia; try constructor. apply Nat.ltb_lt. exact Hlen. }
     pose proof (fold_inv a Hnn P [] (walk_init a) I0 Hs) as HI. simpl in HI.
     specialize (HI Hb).
     destruct (fold_left (walk_body a) P (walk_init a)) as [out el ce cr ec ok].
-    destruct HI as (J1 & J2 & J3 & J4 & J5 & J6 & J7 & J8). simpl in *.
+    destruct HI as (J1 & J2 & J3 & J4 & J5 & J6 & J7 & J8).
+    cbn [w_ok w_el w_out w_count_el w_count_rem w_el_cnt fst snd] in *.
     assert (Lo : length (upd out el ec) = length a) by (rewrite upd_length; exact J3).
     split; [|split].
     + rewrite app_length, firstn_length_le, repeat_length by lia. lia.
@@ -256,11 +256,112 @@ Proof.
 Qed.
 
 Lemma zsum_map_cnt a P : Forall (fun x => (0 <= x)%Z) a -> forall k, k <= length a ->
-  zsum (map (fun i => cnt (off a i) (off a i + nth i a 0) P) (seq 0 k)) = cnt 0 (off a k) P.
+  zsum (map (fun i => cnt (off a i) (off a i + nth i a 0)%Z P) (seq 0 k)) = cnt 0 (off a k) P.
 Proof.
   intros Hnn. induction k as [|k IH]; intros Hk.
   - simpl. symmetry. apply cnt_empty. rewrite off_0. lia.
   - rewrite seq_S, map_app, zsum_app, IH by lia. simpl. rewrite <- (off_S a k) by lia.
     rewrite Z.add_0_r. apply cnt_split. split; [|apply off_step; exact Hnn].
     rewrite <- (off_0 a). apply off_mono; [exact Hnn|lia].
+Qed.
+
+(* K4 under the contract of choice: exact counts, sum n, every entry between 0 and its count *)
+Theorem walk_spec n a P :
+  Forall (fun x => (0 <= x)%Z) a -> choice_ok (zsum a) n P ->
+  length (fst (walk n a P)) = length a /\
+  (forall i, i < length a -> nth i (fst (walk n a P)) 0%Z = cnt (off a i) (off a i + nth i a 0)%Z P) /\
+  zsum (fst (walk n a P)) = Z.of_nat n /\
+  (forall i, (0 <= nth i (fst (walk n a P)) 0 <= nth i a 0)%Z) /\
+  (1 <= n -> snd (walk n a P) = true).
+Proof.
+  intros Hnn (Hi & Hb & Hn).
+  destruct (walk_counts_weak n a P Hnn (incr_nondecr P Hi) Hb Hn) as (L & C & K).
+  split; [exact L|]. split; [exact C|]. split; [|split].
+  - assert (E : fst (walk n a P) = map (fun i => cnt (off a i) (off a i + nth i a 0)%Z P) (seq 0 (length a))).
+    { apply (list_ext 0%Z); [rewrite map_length, seq_length; exact L|].
+      intros i Hi'. rewrite L in Hi'. rewrite nth_map_seq by exact Hi'. apply C. exact Hi'. }
+    rewrite E, (zsum_map_cnt a P Hnn (length a)) by lia.
+    rewrite (off_all a (length a)) by lia. rewrite cnt_all by exact Hb. rewrite Hn. reflexivity.
+  - intros i. destruct (Nat.lt_ge_cases i (length a)) as [H|H].
+    + rewrite (C i H). pose proof (cnt_nonneg (off a i) (off a i + nth i a 0)%Z P).
+      pose proof (cnt_le_width P Hi (off a i) (off a i + nth i a 0)%Z).
+      pose proof (nth_nonneg a Hnn i). lia.
+    + rewrite !nth_overflow by lia. lia.
+  - intros H1. apply K. intros ->. destruct P as [|p P]; [simpl in Hn; lia|].
+    inversion Hb; subst. simpl in *. lia.
+Qed.
+
+(* what goes wrong when the draws are not distinct: an entry can exceed its count *)
+Lemma walk_duplicates_exceed : exists a P, nondecr P /\ Forall (fun p => (0 <= p < zsum a)%Z) P /\
+  (nth 0 a 0 < nth 0 (fst (walk (length P) a P)) 0)%Z.
+Proof. exists [1; 5]%Z, [0; 0]%Z. vm_compute. repeat split; repeat constructor; discriminate. Qed.
+
+(* ------------------------------------------------------------------ one vector through its layout *)
+Local Arguments walk : simpl never.
+(* v' can be the result of subsampling v to depth n without replacement *)
+Definition Rwo (n : nat) (v v' : list Z) : Prop :=
+  length v' = length v /\ (forall j, (0 <= nth j v' 0 <= nth j v 0)%Z) /\
+  zsum v' = (if (zsum v <? Z.of_nat n)%Z then 0 else Z.of_nat n)%Z.
+
+Lemma Forall_nth_nonneg v j : Forall (fun x => (0 <= x)%Z) v -> (0 <= nth j v 0)%Z.
+Proof. intros H. apply (nth_nonneg v H j). Qed.
+
+Lemma gather_nonneg ord v : Forall (fun x => (0 <= x)%Z) v -> Forall (fun x => (0 <= x)%Z) (gather 0%Z ord v).
+Proof.
+  intros H. unfold gather. apply Forall_forall. intros x Hx. apply in_map_iff in Hx.
+  destruct Hx as [j [<- _]]. apply Forall_nth_nonneg. exact H.
+Qed.
+
+Lemma scatter_bound v ord out :
+  ord_wf v ord -> Forall (fun x => (0 <= x)%Z) v ->
+  (forall k, (0 <= nth k out 0 <= nth k (gather 0%Z ord v) 0)%Z) ->
+  forall j, (0 <= nth j (scatter 0%Z (length v) ord out) 0 <= nth j v 0)%Z.
+Proof.
+  intros (Hn & Hb & Hs) Hv Ho j. destruct (Nat.lt_ge_cases j (length v)) as [Hj|Hj].
+  - rewrite nth_scatter by exact Hj. destruct (nfind j ord) as [k|] eqn:E.
+    + apply nfind_Some in E. destruct E as [E Hk]. specialize (Ho k).
+      unfold gather in Ho. rewrite (nth_map_in _ ord k 0 0%Z Hk) in Ho. rewrite E in Ho. exact Ho.
+    + pose proof (Forall_nth_nonneg v j Hv). lia.
+  - rewrite !nth_overflow by (rewrite ?scatter_length; lia). lia.
+Qed.
+
+Lemma sub_seg_R n v ord draws :
+  ord_wf v ord -> Forall (fun x => (0 <= x)%Z) v -> draws_ok n [zsum v] draws ->
+  Rwo n v (scatter 0%Z (length v) ord (fst (fst (sub_seg n (gather 0%Z ord v) draws)))).
+Proof.
+  intros W Hv Hd. pose proof W as (Hn & Hb & Hs). unfold sub_seg. rewrite (zsum_gather v ord W).
+  simpl in Hd. unfold Rwo. destruct (zsum v <? Z.of_nat n)%Z eqn:E; simpl.
+  - split; [apply scatter_length|]. split.
+    + apply scatter_bound; try assumption. intros k. rewrite nth_repeat.
+      pose proof (Forall_nth_nonneg _ k (gather_nonneg ord v Hv)). lia.
+    + rewrite zsum_scatter; try assumption; [apply zsum_repeat0|rewrite repeat_length; apply gather_length].
+  - destruct draws as [|P rest]; [contradiction|]. destruct Hd as [Hc _].
+    rewrite <- (zsum_gather v ord W) in Hc.
+    destruct (walk_spec n (gather 0%Z ord v) P (gather_nonneg ord v Hv) Hc) as (L & _ & S & B & _).
+    destruct (walk n (gather 0%Z ord v) P) as [o ok]. simpl in *.
+    split; [apply scatter_length|]. split.
+    + apply scatter_bound; assumption.
+    + rewrite zsum_scatter; try assumption. rewrite L. apply gather_length.
+Qed.
+
+Lemma draws_ok_tail n s ts draws :
+  draws_ok n (s :: ts) draws ->
+  draws_ok n [s] draws /\ forall seg, zsum seg = s -> draws_ok n ts (snd (fst (sub_seg n seg draws))).
+Proof.
+  simpl. unfold sub_seg. destruct (s <? Z.of_nat n)%Z eqn:E.
+  - intros H. split; [trivial|]. intros seg Hs. rewrite Hs, E. simpl. exact H.
+  - destruct draws as [|P rest]; [contradiction|]. intros [A B]. split; [split; [exact A|trivial]|].
+    intros seg Hs. rewrite Hs, E. destruct (walk n seg P). simpl. exact B.
+Qed.
+
+Lemma sub_vecs_R n : forall vs lay draws,
+  lay_wf vs lay -> Forall (Forall (fun x => (0 <= x)%Z)) vs -> draws_ok n (map zsum vs) draws ->
+  Forall2 (Rwo n) vs (sub_vecs n vs lay draws).
+Proof.
+  intros vs lay draws H. revert draws. induction H as [|v ord vs lay W _ IH]; intros draws Hv Hd; simpl; [constructor|].
+  inversion Hv as [|? ? Hv1 Hv2]; subst. simpl in Hd. apply draws_ok_tail in Hd. destruct Hd as [D1 D2].
+  pose proof (sub_seg_R n v ord draws W Hv1 D1) as R1.
+  specialize (D2 (gather 0%Z ord v) (zsum_gather v ord W)).
+  destruct (sub_seg n (gather 0%Z ord v) draws) as [[o draws'] ok]. simpl in *.
+  constructor; [exact R1|]. apply IH; assumption.
 Qed.
